@@ -19,12 +19,15 @@ ERR = {1: "om_assert", 3: "std::exception", 4: "unknown", 10: "BadFileOpening", 
 
 # ---------- values ----------
 SPECIAL = [0.0, -0.0, 1.0, -1.0, 0.5, 1e300, -1e300, 1e-300, -1e-300, 123456789.0, 0.1, 1.0 / 3, 2.5e-7, 99999.95, 1e22, 7.0, -42.0]
+# the longest texts "%g" produces: sign, six significant digits, three-digit exponent (13 characters)
+EXTREME = [-1.23456789e-300, 1.23456789e-300, -9.87654321e+300, 9.87654321e+300, -1.23457e100, 7.65432e-101, -5.55555e250, -2.71828e-150, 3.14159e+200, -6.02214e-123]
 NONFINITE = [float("inf"), float("-inf"), float("nan")]
 
 def gen_value(rng, nonfinite):
     c = rng.random()
     if nonfinite and c < 0.08: return rng.choice(NONFINITE)
-    if c < 0.35: return rng.choice(SPECIAL)
+    if c < 0.30: return rng.choice(SPECIAL)
+    if c < 0.42: return rng.choice(EXTREME) if rng.random() < 0.5 else rng.choice([-1, 1]) * rng.uniform(1.000001, 9.999999) * 10.0 ** (rng.choice([-1, 1]) * rng.randint(100, 300))
     if c < 0.6: return float(rng.randint(-50, 50))
     return rng.uniform(-1, 1) * 10.0 ** rng.randint(-12, 12)
 
@@ -168,6 +171,11 @@ def exhaustive_small(rng):
     for nl in range(0, 4):
         for nc in range(0, 4):
             cases.append((2, [1, nl, nc] + [w(float(10 * i + j) + 0.5) for j in range(nc) for i in range(nl)], 1))
+    ex = [w(x) for x in EXTREME]
+    for fmt in (0, 1):       # every kind holding the longest-printing values
+        cases.append((fmt, [0, 4] + ex[:4], 0)); cases.append((fmt, [1, 2, 3] + ex[:6], 1)); cases.append((fmt, [2, 3] + ex[4:10], 2))
+        cases.append((fmt, [3, 3, 3, 4, 0, 1, ex[0], 1, 0, ex[2], 1, 2, ex[5], 2, 2, ex[7]], 3))
+    cases.append((2, [1, 3, 2] + ex[:6], 1))
     for fmt in (0, 1):
         for n in range(0, 5):
             vs = [w(float(k + 1) + 0.25) for k in range(n)]
@@ -276,6 +284,39 @@ def run_mat(ck, hb, rng, n, stats):
             ck.violation("matlab roundtrip changes the object: %s" % describe(o),
                          "PROPERTY: %s reloaded with other dimensions/values: saved %s loaded %s" % (tag, o[:10], oc[1:11]), dict(kind="mat", cases=[line]))
     return len(cases)
+
+# ---------- loading into an object that already holds something else ----------
+def run_used(ck, hb, rng, n, stats):
+    jobs = []
+    w = lex.d2w
+    fixed = [(3, [3, 3, 3, 1, 1, 1, w(2.5)], [3, 3, 3, 3, 0, 0, w(9.0), 0, 2, w(8.0), 2, 1, w(7.0)]),
+             (3, [3, 2, 2, 1, 0, 0, w(1.0)], [3, 5, 5, 2, 4, 4, w(3.0), 3, 1, w(4.0)]),
+             (0, [0, 3, w(1.0), w(2.0), w(3.0)], [0, 5] + [w(9.0)] * 5), (1, [1, 2, 2] + [w(float(k)) for k in range(4)], [1, 3, 4] + [w(7.0)] * 12),
+             (2, [2, 3] + [w(float(k)) for k in range(6)], [2, 2, w(5.0), w(5.0), w(5.0)])]
+    for kind, o, u in fixed:
+        for fmt in (0, 1, 3): jobs.append((fmt, o, u))
+    while len(jobs) < n:
+        kind = rng.randint(0, 3); fmt = rng.choice([0, 1, 3] + ([2] if kind == 1 else []))
+        jobs.append((fmt, gen_obj(rng, kind, nonfinite=(fmt in (0, 3)), big=False), gen_obj(rng, kind, nonfinite=False, big=False)))
+    lines = ["c07 13 %d %s %s" % (f, " ".join(map(str, o)), " ".join(map(str, u))) for f, o, u in jobs]
+    rc, io, err = core.run_harness(hb, lines, ck.workdir, tag="used")
+    rnd = rnd6_batch(hb, ck.workdir, [v for f, o, u in jobs if f in (1, 2) for v in obj_values(o)])
+    for (f, o, u), line, il in zip(jobs, lines, io):
+        out = ints(il); tag = "%s %s loaded into a used %s" % (FN[f], describe(o), describe(u))
+        stats["dist"]["used/%s/%s" % (FN[f], KN[o[0]])] = stats["dist"].get("used/%s/%s" % (FN[f], KN[o[0]]), 0) + 1
+        rep = dict(kind="used", cases=[line])
+        if out[0] in (90, 91) or out[0] != 0:
+            ck.violation("used-object roundtrip: save fails or crashes: %s %s" % (FN[f], describe(o)), "PROPERTY: %s: %s" % (tag, ERR.get(out[0], out[0])), rep); continue
+        oc = out[1:]
+        amb = bin_ambiguous(o) if f == 0 else txt_ambiguous(o) if f == 1 else (o[1] == 0 or o[2] == 0) if f == 2 else False
+        expect = obj_map_values(o, lambda x: rnd.get(x, x)) if f in (1, 2) else o
+        if oc[0] == 0:
+            if oc[1:] != expect:
+                ck.violation("load into a used object keeps old content: %s %s" % (FN[f], KN[o[0]]),
+                             "PROPERTY: %s returns another object than the one saved: expected %s, got %s" % (tag, expect[:12], oc[1:13]), rep)
+        elif not amb:
+            ck.violation("load into a used object fails: %s %s" % (FN[f], describe(o)), "PROPERTY: %s cannot be loaded (%s)" % (tag, outcome_str(oc)), rep)
+    return len(jobs)
 
 # ---------- MATLAB sparse: CSC arrays as stored by libmatio vs the model ----------
 def run_csc(ck, hb, rng, n, stats):
@@ -387,7 +428,7 @@ def main(replay=None):
             w = [int(t) for t in l.split()[1:]]
             if w[0] == 1: cases.append((w[1], w[2:-1], w[-1]))
         if cases: run_rt(ck, hb, order, cases, stats)
-        if rp.get("kind") == "mat":
+        if rp.get("kind") in ("mat", "used", "csc", "convert"):
             lines = rp["cases"]; rc, io, err = core.run_harness(hb, lines, ck.workdir, tag="mat")
             print("replay:", lines[0][:200], "->", io[0][:200])
         ck.cov.update(evaluations=len(cases), distinct_nontrivial=len(stats["nontrivial"]), rule="replay")
@@ -403,9 +444,10 @@ def main(replay=None):
     cases = corpus + exhaustive_small(ck.rng) + gen_rt_cases(ck.rng, 700 if quick else 6000)
     run_rt(ck, hb, order, cases, stats)
     nmat = run_mat(ck, hb, ck.rng, 60 if quick else 600, stats)
+    nused = run_used(ck, hb, ck.rng, 80 if quick else 600, stats)
     ncsc = run_csc(ck, hb, ck.rng, 60 if quick else 500, stats)
     ncv = run_convert(ck, hb, bdir, ck.rng, 60 if quick else 500, stats)
-    ck.cov.update(evaluations=len(cases) + nmat + ncv + ncsc, csc_cases=ncsc, distinct_nontrivial=len(stats["nontrivial"]),
+    ck.cov.update(evaluations=len(cases) + nmat + ncv + ncsc + nused, csc_cases=ncsc, used_object_cases=nused, distinct_nontrivial=len(stats["nontrivial"]),
                   rule="round-trip cases kind x {bin,txt} x shape (all shapes <=4 exhaustively x all target kinds; random dims biased to 0/1/2/3, to sizes whose first header byte is a digit/newline (10,13,32,48..57), up to 300 rows; sparsity patterns empty/single/half/full/random; values: signed zeros, 1e+-300, integers, random decades, NaN/Inf for bin/mat); 30% cross-kind loads; non-trivial = same-kind case with at least one stored value; distinct = distinct case lines",
                   samples=[rt_line(c)[:300] for c in cases[len(cases) // 2:len(cases) // 2 + 3]], op_distribution=stats["dist"],
                   error_outcomes=stats["errors"], correspondence_mismatches=stats["mism"], unmodelled_outcomes=stats["unmodelled"],
